@@ -9,8 +9,9 @@ had its conditions inverted.
 """
 
 import ast
+import os
 
-from .absint import EMPTY, FALSE, NONE, NONEMPTY, NOTNONE, TOP, TRUE, DefaultDomain, Interp, Result, State, exc, val
+from .absint import EMPTY, FALSE, NONE, NONEMPTY, NOTNONE, TOP, TRUE, DefaultDomain, Interp, Result, State, exc, unbox, val
 from .astutil import FUNC_TYPES, attr_chain, dotted, norm
 
 
@@ -196,6 +197,14 @@ class EffectDomain(DefaultDomain):
     def binop(self, node, left, right):
         okl, pl = self._py(left)
         okr, pr = self._py(right)
+        if okl and okr and isinstance(pl, bool) and isinstance(pr, (bool, int)) or okl and okr and isinstance(pr, bool) and isinstance(pl, int):
+            # booleans in arithmetic are 0 / 1
+            if isinstance(node.op, ast.Add):
+                return self._abs(int(pl) + int(pr))
+            if isinstance(node.op, ast.Sub):
+                return self._abs(int(pl) - int(pr))
+            if isinstance(node.op, ast.Mult):
+                return self._abs(int(pl) * int(pr))
         if okl and okr and isinstance(pl, (int, str, bytes)) and isinstance(pr, (int, str, bytes)) and not isinstance(pl, bool) and not isinstance(pr, bool):
             try:
                 if isinstance(node.op, ast.Add):
@@ -656,7 +665,7 @@ class EffectDomain(DefaultDomain):
     def force_sequence(self, interp, value, st, fr):
         if not (isinstance(value, tuple) and value[:1] == ("lazymap",)):
             return None
-        fn, seq = value[1], value[2]
+        fn, seq = value[1], unbox(value[2], st)   # (a list kept on the heap: what it holds now)
         els = interp._exact_elements(seq)
         if els is None:
             return [val(TOP, st)]
@@ -1092,6 +1101,8 @@ class EffectDomain(DefaultDomain):
                         folded.append(val(self._abs(getattr(pys[0][1], fa.attr)(*[x for _, x in pys[1:]])), r.state))
                         continue
                     except Exception as e_:  # the concrete call raises: so does the code
+                        if os.environ.get("TTSA_TRACE_EXC"):
+                            print("FOLD-RAISES", fr.name, call.lineno, norm(call)[:80], pys, repr(e_))
                         folded.append(exc(("exc", type(e_).__name__), r.state))
                         continue
                 if fa.attr == "join" and pys[0][0] and isinstance(pys[0][1], str) and len(r.value) == 2 and isinstance(r.value[1], tuple) and r.value[1][:1] == ("tuple",) \
@@ -1243,6 +1254,8 @@ class EffectDomain(DefaultDomain):
                         vals_.append(v)
                 out.append(val(("lazymap", vals_[0], vals_[1]) if len(vals_) == 2 else TOP, r.state))
             return out
+        if d in ("bytes", "str", "int", "float", "bool", "tuple") and not call.args and not call.keywords and not st.has(fr.local(d)):
+            return [val(self._abs({"bytes": b"", "str": "", "int": 0, "float": 0.0, "bool": False, "tuple": ()}[d]) if d != "tuple" else ("tuple",), st)]
         if d == "dict.fromkeys" and 1 <= len(call.args) <= 2 and not call.keywords:
             out = []
             for r in interp._forced_list(interp.eval_list(list(call.args), st, fr), fr) if hasattr(interp, "_forced_list") else interp.eval_list(list(call.args), st, fr):
